@@ -1,10 +1,10 @@
 SPECIFICATION Spec
 CONSTANTS
-  Procs = {1, 2}
-  Nodes = {1, 2}
+  Procs = {1, 2, 3}
+  Nodes = {1}
   PoolLocks = {1, 2}
   Iter = 2
-  ClearLate = FALSE
+  ClearLate = TRUE
   EarlyRelease = FALSE
 INVARIANT MutualExclusion
 INVARIANT Safe
